@@ -361,7 +361,8 @@ func (r *Resource[T]) Router() *Router[T] { return r.router }
 
 func (resp *headResponse) WriteHeader(status int) {
 	if !resp.wrote { // 与 GET 相同，输出内容之后再指定的状态码无效。
-		resp.wrote = true
+		// 1xx（101 除外）只是中间状态，之后还可以再指定最终的状态码。
+		resp.wrote = status < 100 || status > 199 || status == http.StatusSwitchingProtocols
 		resp.ResponseWriter.WriteHeader(status)
 	}
 }
